@@ -7,6 +7,7 @@ import (
 	"encoding/json"
 	"fmt"
 	"math/rand"
+	"sort"
 	"strings"
 	"time"
 )
@@ -34,6 +35,9 @@ var c10Prelude = []string{
 	"mboom = macro(x) {func boom(n) {boom(n + 1)}; boom(0); quote(unquote(x))}",
 	`merr = macro(x) {error("in macro body")}`,
 	"mloop = macro(x) {for true {}}",
+	// pure and recursive, slow on the way back up (the levels below the one where a deadline expires have completed)
+	"fslow = func(n) {if n == 0 {return 0}; r = self(n - 1); for si = 20000 {}; r + 1}",
+	"fbrk = func() {break}", "fcnt = func(x) {if x > 0 {continue}; x}", "fbrk2 = func() {fbrk()}",
 }
 
 // c10DeepN: the largest n for which fcount(n) works in a fresh session with the harness' depth limit, minus a margin of
@@ -71,6 +75,8 @@ func c10Good(kind string, i int) string {
 		return fmt.Sprintf(`println("d%d", fcount(%d))`, i, c10DeepN)
 	case "macro":
 		return fmt.Sprintf(`println("m%d", mgood(%d), mgood(g))`, i, i)
+	case "slowcall":
+		return fmt.Sprintf(`println("s%d", fslow(%d))`, i, 20+10*(i%5)) // (an argument the earlier slowcalls have not computed yet)
 	default:
 		return "g = g + 1; println(g)"
 	}
@@ -114,10 +120,27 @@ func c10Fail(kind string) string {
 		return "merr(1)"
 	case "deadline-in-macro-body":
 		return "mloop(1)"
+	case "parse-error":
+		return "g = 1 +* 2 )"
+	case "parse-error-unterminated":
+		return `g = "abc`
+	case "parse-error-too-deep":
+		return strings.Repeat("(", 10001) + "1" + strings.Repeat(")", 10001)
+	case "break-reaches-function-end":
+		return "fbrk2()"
+	case "continue-reaches-function-end-in-loop":
+		return "for li = 2 {fcnt(1)}"
+	case "deadline-in-pure-recursion":
+		return "fslow(80) " + c10ShortMark
 	default: // deadline
 		return "for true {}"
 	}
 }
+
+// the input that must hit its deadline inside fslow runs under a short one (c10Short), so that the later fslow(30) of a
+// good input is far from the ordinary deadline
+const c10ShortMark = "/* short deadline */"
+const c10Short = 6 * time.Millisecond
 
 type c10Op struct {
 	Kind string
@@ -157,7 +180,7 @@ func c10Inputs(ops []c10Op) (inputs []string, failing []bool) {
 }
 
 func c10Run(inputs []string, failing []bool) (with, without []inObs, failedAsExpected bool, globalsEq bool) {
-	opt := RunOpt{MaxDepth: 300, Timeout: 400 * time.Millisecond}
+	opt := RunOpt{MaxDepth: 300, Timeout: 400 * time.Millisecond, ShortFor: c10ShortMark, Short: c10Short}
 	all, s1 := runHistory(inputs, opt)
 	var kept []string
 	failedAsExpected = true
@@ -197,17 +220,21 @@ func checkC10(c *Ctx) {
 		return
 	}
 	c.Cov("deep_recursion_n", c10DeepN)
-	cfg := func(maxOps int, bursts string, wr, lr, mf, emit bool) string {
+	cfg := func(maxOps int, bursts string, dev [6]bool, emit bool) string {
 		b := func(x bool) string {
 			if x {
 				return "TRUE"
 			}
 			return "FALSE"
 		}
-		return fmt.Sprintf("CONSTANTS\n NumRegisters = 8\n MaxOps = %d\n Bursts = %s\n WriterRestored = %s\n LoopReleases = %s\n MacroStateFresh = %s\n EmitOn = %s\nINIT Init\nNEXT Next\nVIEW view\nINVARIANT FailureIsInvisible\n", maxOps, bursts, b(wr), b(lr), b(mf), b(emit))
+		return fmt.Sprintf("CONSTANTS\n NumRegisters = 8\n MaxOps = %d\n Bursts = %s\n WriterRestored = %s\n LoopReleases = %s\n MacroStateFresh = %s\n DepthBalanced = %s\n ParserFresh = %s\n ErrorsNotCached = %s\n EmitOn = %s\nINIT Init\nNEXT Next\nVIEW view\nINVARIANT FailureIsInvisible\n",
+			maxOps, bursts, b(dev[0]), b(dev[1]), b(dev[2]), b(dev[3]), b(dev[4]), b(dev[5]), b(emit))
 	}
-	for _, dev := range [][3]bool{{false, true, true}, {true, false, true}, {true, true, false}} {
-		r, err := c.TLC(TLCOpt{Spec: "Session", Cfg: cfg(3, "{1, 9}", dev[0], dev[1], dev[2], false), Workers: 2, AllowError: true})
+	allTrue := [6]bool{true, true, true, true, true, true}
+	for d := 0; d < 6; d++ {
+		dev := allTrue
+		dev[d] = false
+		r, err := c.TLC(TLCOpt{Spec: "Session", Cfg: cfg(3, "{1, 9}", dev, false), Workers: 2, AllowError: true})
 		if err != nil {
 			c.Infra(err)
 			return
@@ -217,8 +244,8 @@ func checkC10(c *Ctx) {
 			return
 		}
 	}
-	c.Cov("design_counterexamples", "WriterRestored=FALSE, LoopReleases=FALSE and MacroStateFresh=FALSE each violate FailureIsInvisible")
-	r, err := c.TLC(TLCOpt{Spec: "Session", Cfg: cfg(c.Pick(3, 4), "{1, 9}", true, true, true, true), Workers: 1})
+	c.Cov("design_counterexamples", "WriterRestored, LoopReleases, MacroStateFresh, DepthBalanced, ParserFresh, ErrorsNotCached = FALSE each violate FailureIsInvisible")
+	r, err := c.TLC(TLCOpt{Spec: "Session", Cfg: cfg(c.Pick(3, 4), "{1, 9}", allTrue, true), Workers: 1})
 	if err != nil {
 		c.Infra(err)
 		return
@@ -232,7 +259,7 @@ func checkC10(c *Ctx) {
 	seen := map[string]bool{}
 	n := 0
 	deadlineBudget := c.Pick(40, 300) // histories containing the (slow) deadline failure
-	stride := c.Pick(5, 12)
+	stride := c.Pick(24, 12)
 	err = ReadLines(r.Emitted, func(line []byte) error {
 		var g struct {
 			H [][]any `json:"h"`
@@ -247,7 +274,7 @@ func checkC10(c *Ctx) {
 		ops := parseSessOps(g.H)
 		dl := 0
 		for _, op := range ops {
-			if op.Kind == "fail" && (op.K == "deadline" || op.K == "deadline-in-macro-body") {
+			if op.Kind == "fail" && (op.K == "deadline" || op.K == "deadline-in-macro-body" || op.K == "parse-error-too-deep") {
 				dl += op.N
 			}
 		}
@@ -274,6 +301,35 @@ func checkC10(c *Ctx) {
 		return
 	}
 	c.Cov("histories_emitted", n)
+	// every failure kind followed by every kind of good input, never sampled out: a burst of 1, 2 and 9 failing inputs, then the
+	// good input (slow failure kinds: once and twice)
+	allGoods := []string{"print", "loop", "call", "define", "incr", "loopvar", "deep", "macro", "slowcall"}
+	allFails := []string{"err-nested-calls", "err-in-top-loop", "err-in-nested-loops", "panic-in-function", "depth-overflow", "deadline", "memory-guard", "panic-in-top-loop",
+		"memory-guard-top-level", "depth-overflow-expression", "arity-error-top-call", "param-bind-error-top-call", "depth-overflow-in-macro-body", "error-in-macro-body",
+		"deadline-in-macro-body", "print-then-panic-in-function", "depth-overflow-in-library-function", "depth-overflow-in-eval", "panic-in-eval", "parse-error",
+		"parse-error-unterminated", "parse-error-too-deep", "break-reaches-function-end", "continue-reaches-function-end-in-loop", "deadline-in-pure-recursion"}
+	pairs := 0
+	for _, fk := range allFails {
+		bursts := []int{1, 2, 9}
+		if strings.HasPrefix(fk, "deadline") || fk == "parse-error-too-deep" {
+			bursts = []int{1, 2}
+		}
+		for _, nb := range bursts {
+			for gi, gk := range allGoods {
+				if !c.Thorough() && nb == 2 && (gi+len(fk)+int(c.Seed))%3 != 0 && !strings.HasPrefix(fk, "break") && !strings.HasPrefix(fk, "continue") {
+					continue
+				}
+				ops := []c10Op{{"good", gk, 1}, {"fail", fk, nb}, {"good", gk, 1}}
+				in, fl := c10Inputs(ops)
+				if key := strings.Join(in, "\n"); !seen[key] {
+					seen[key] = true
+					cases = append(cases, hcase{ops, in, fl})
+					pairs++
+				}
+			}
+		}
+	}
+	c.Cov("failure_kind_x_good_kind_histories", pairs)
 	// random longer histories beyond the model-checked bound
 	rng := rand.New(rand.NewSource(c.Seed * 104729))
 	goods := []string{"print", "loop", "call", "define", "incr", "loopvar", "deep"}
@@ -291,12 +347,23 @@ func checkC10(c *Ctx) {
 		in, fl := c10Inputs(ops)
 		cases = append(cases, hcase{ops, in, fl})
 	}
+	// every failing input fails when it is the first thing submitted after the prelude (else the harness is out of date):
+	// one that does not fail later in a history is then an effect of that history
+	calib := append([]string{}, allFails...)
+	sort.SliceStable(calib, func(i, j int) bool { return calib[i] != "parse-error-too-deep" && calib[j] == "parse-error-too-deep" }) // (the input most likely to disturb the process: last)
+	for _, fk := range calib {
+		in, fl := c10Inputs([]c10Op{{"fail", fk, 1}})
+		if _, _, failedOK, _ := c10Run(in, fl); !failedOK {
+			c.Infra(fmt.Errorf("the failing input of kind %s does not fail in a fresh session on the real interpreter (harness inputs out of date)", fk))
+			return
+		}
+	}
 	var ecs []equivCase
-	notFailing := 0
+	notFailing := map[int]bool{}
 	for i, hc := range cases {
 		with, without, failedOK, globalsEq := c10Run(hc.inputs, hc.fail)
 		if !failedOK {
-			notFailing++
+			notFailing[i] = true
 		}
 		// the final globals are one more observation
 		with = append(with, inObs{Out: fmt.Sprint("globals-equal=", globalsEq)})
@@ -306,10 +373,6 @@ func checkC10(c *Ctx) {
 		if i%1500 == 0 {
 			c.Sample(map[string]any{"ops": hc.ops, "inputs": hc.inputs[len(c10Prelude):]})
 		}
-	}
-	if notFailing > 0 {
-		c.Infra(fmt.Errorf("%d histories contain a 'failing' input that did not fail on the real interpreter (harness inputs out of date)", notFailing))
-		return
 	}
 	vs, err := equivValidate(c, ecs)
 	if err != nil {
@@ -321,6 +384,11 @@ func checkC10(c *Ctx) {
 		if !ok {
 			c.Infra(fmt.Errorf("no verdict for history %d", i))
 			return
+		}
+		if notFailing[i] {
+			c.Fail(c10Sig(hc.ops)+":later-failing-input-does-not-fail", "an input that fails in a fresh session did not fail in this history (what came before changed how it is read or evaluated)",
+				map[string]any{"check": "history", "inputs": hc.inputs, "failing": hc.fail})
+			continue
 		}
 		if v.OK {
 			c.AddTraces(1)
@@ -337,7 +405,10 @@ func replayC10(rp map[string]any) (bool, string) {
 	_ = json.Unmarshal(b, &inputs)
 	b, _ = json.Marshal(rp["failing"])
 	_ = json.Unmarshal(b, &failing)
-	with, without, _, geq := c10Run(inputs, failing)
+	with, without, failedOK, geq := c10Run(inputs, failing)
+	if !failedOK {
+		return false, "an input that fails in a fresh session did not fail in this history"
+	}
 	for i := range with {
 		if i >= len(without) || with[i] != without[i] {
 			return false, describeDiff(with, without, i+1)
